@@ -17,12 +17,13 @@ func caseSeed(seed int64, scenario string, idx int) int64 {
 
 // Scenarios by name.
 var Scenarios = map[string]func(seed int64, idx int) *Result{
-	"stress":  func(s int64, i int) *Result { return RunStress(s, i, false) },
-	"hostile": func(s int64, i int) *Result { return RunStress(s, i, true) },
-	"sync":    RunSync,
-	"flood":   RunFlood,
-	"timer":   RunTimer,
-	"ctx":     RunCtx,
+	"stress":   func(s int64, i int) *Result { return RunStress(s, i, false) },
+	"hostile":  func(s int64, i int) *Result { return RunStress(s, i, true) },
+	"sync":     RunSync,
+	"flood":    RunFlood,
+	"timer":    RunTimer,
+	"ctx":      RunCtx,
+	"validate": RunValidate,
 }
 
 // ChildMain runs cases [from,to) of a scenario and prints one "RT|{json}" line per case.
@@ -50,6 +51,16 @@ func RunTimer(seed int64, idx int) *Result {
 	r := &Result{Scenario: "timer", Case: idx, Seed: seed, Stats: map[string]int{"C19 timer scripts": 40, "C19 triggers received": recv, "C19 triggers judged": judged, "C19 timer goroutines left": left}, Desc: "40 Register/Stop/read scripts on the real TimerBasedElectionTrigger (2 ms base)"}
 	for _, v := range viol {
 		r.Viol = append(r.Viol, Violation{"C19", v[0], v[1]})
+	}
+	return r
+}
+
+// RunValidate: overlapping ValidateBlockConsensus calls on one node (C02) under the race detector.
+func RunValidate(seed int64, idx int) *Result {
+	viol, stats := unit.C02Concurrent(seed)
+	r := &Result{Scenario: "validate", Case: idx, Seed: seed, Stats: stats, Desc: "a fixed list of certificates with reference verdicts validated by 4..8 goroutines at once on one node"}
+	for _, v := range viol {
+		r.Viol = append(r.Viol, Violation{"C02", v[0], v[1]})
 	}
 	return r
 }
